@@ -31,13 +31,13 @@ pub fn universe() -> Vec<RuleSpec> {
     r.markers.push(("m".into(), "[a-z]+".into()));
     v.push(r);
     // r2 shares a tree node with r1b
-    let mut r = mk("r2", "r2 dynamic /a/@m/b");
-    r.path = "/a/@m/b".into();
+    let mut r = mk("r2", "r2 dynamic /a/@m/B (upper-case literal)");
+    r.path = "/a/@m/B".into();
     r.markers.push(("m".into(), "[a-z]+".into()));
     v.push(r);
     // r3 dynamic host
-    let mut r = mk("r3", "r3 dynamic host @h.example");
-    r.host = Some("@h.example".into());
+    let mut r = mk("r3", "r3 dynamic host @h.Example (upper-case literal)");
+    r.host = Some("@h.Example".into());
     r.markers.push(("h".into(), "(cat|dog)".into()));
     v.push(r);
     // r4 lives in several buckets at once
